@@ -208,6 +208,9 @@ fn case_json(kvs: &[Kv], fr: Front, geom: Geom) -> Value {
 }
 
 pub fn replay(case: &Value) -> Result<String, String> {
+    if let Some(r) = super::seqread::replay(case) {
+        return r;
+    }
     if case["many_builds"].as_bool() == Some(true) {
         fn judge(kvs: &[Kv], bytes: &[u8]) -> Result<(), String> {
             guard(|| check_readback(bytes, kvs, false)).and_then(|x| x)
@@ -595,5 +598,7 @@ pub fn plan(tier: Tier) -> Plan {
         }
     }));
     p.must_be_nonzero = vec!["fanout_cases".into(), "calibrated_delta_cases_exactly_on_target".into()];
+    p.rule.push_str(super::seqread::RULE);
+    super::seqread::add_units(&mut p, super::seqread::Class::Meta, if tier.thorough() { 5 } else { 4 });
     p
 }
